@@ -21,7 +21,7 @@ pub struct DefinitionLocation {
     pub span: Span,
 }
 
-#[derive(Clone, Debug, PartialEq, Eq, Hash)]
+#[derive(Clone, Debug, PartialEq, Eq, Hash, PartialOrd, Ord)]
 pub enum DefinitionType {
     Filename(PathBuf),
     Symbol(SymbolIndex),
@@ -67,6 +67,16 @@ impl Definition {
         self.usages
             .iter()
             .any(|usage| span_contains(usage.span, tree, path, pos))
+    }
+
+    /// The length of the shortest span (definition or usage) that contains the position
+    fn narrowest_match(&self, tree: &ParseTree, path: &Path, pos: LineCol) -> Option<u64> {
+        self.location
+            .iter()
+            .chain(self.usages.iter())
+            .filter(|dl| span_contains(dl.span, tree, path, pos))
+            .map(|dl| dl.span.len())
+            .min()
     }
 
     pub fn try_get_usage_containing(
@@ -185,9 +195,18 @@ impl Analysis {
         filter: F,
     ) -> Vec<(&DefinitionType, &Definition)> {
         let path = path.into();
+        // Several definitions may contain the position: every position in an imported file, for instance, also lies
+        // inside the file the import refers to. The one that matches most narrowly comes first, in the same order on every run.
         self.definitions
             .iter()
-            .filter(|(ty, definition)| filter(ty) && definition.contains(&self.tree, &path, pos))
+            .filter(|(ty, _)| filter(ty))
+            .filter_map(|(ty, definition)| {
+                definition
+                    .narrowest_match(&self.tree, &path, pos)
+                    .map(|len| (len, ty, definition))
+            })
+            .sorted_by(|a, b| (a.0, a.1).cmp(&(b.0, b.1)))
+            .map(|(_, ty, definition)| (ty, definition))
             .collect()
     }
 
